@@ -16,10 +16,34 @@ LOGF = z3.Function('logf', FPS, FPS)
 class FPInterp(Interp):
   D = FP
 
-  def __init__(self, ctx=None, ftz=False):
+  def __init__(self, ctx=None, ftz=False, div_rcp=True):
     super().__init__(ctx)
     self.ftz = ftz
     self.depth = 0
+    # XLA:CPU lowers a float division whose divisor is a constant or a broadcast (one divisor element
+    # shared by several result elements) as a multiplication by the reciprocal (observed: eager and jit;
+    # 1 ulp different from IEEE division).  Such a division is modelled as EITHER lowering, chosen by a
+    # free Boolean per division equation (collected in ctx.div_choices); same-shape divisions are IEEE.
+    self.div_rcp = div_rcp
+    if not hasattr(self.ctx, 'div_choices'):
+      self.ctx.div_choices = []
+
+  def p_div(self, e, i):
+    if np.issubdtype(e.outvars[0].aval.dtype, np.integer) or not self.div_rcp:
+      return super().p_div(e, i)
+    a, b = toobj(i[0]), toobj(i[1])
+    belems = list(b.reshape(-1))
+    n_out = int(np.prod(e.outvars[0].aval.shape)) if e.outvars[0].aval.shape else 1
+    const = not any(FP.is_z3(x) for x in belems)
+    if not const:
+      ids = {x.get_id() if FP.is_z3(x) else ('c', float(x)) for x in belems}
+      shared = len(ids) < n_out or len(belems) < n_out
+    if not (const or shared) or not any(FP.is_z3(x) for x in list(a.reshape(-1)) + belems):
+      return super().p_div(e, i)
+    ch = z3.Bool(f'div_rcp_{len(self.ctx.div_choices)}')
+    self.ctx.div_choices.append(ch)
+    one = np.float32(1.0)
+    return vec(lambda x, y: FP.s_if(ch, FP.s_mul(x, FP.s_div(one, y)), FP.s_div(x, y)), *i)
 
   def eval(self, jaxpr, consts, *args):
     outer = self.depth == 0
